@@ -14,6 +14,7 @@ the singleton container [v] with the real code succeeds.
 from __future__ import annotations
 
 import itertools
+import json
 import math
 import warnings
 
@@ -273,11 +274,142 @@ def _explore_polars(dtname, maxlen):
     return viol, n, nontriv
 
 
+# ---------------------------------------------------------------------------------------------
+# history independence: the outcome of try_coerce(T, c) is a function of (T, c) only -- not of which other data type objects were
+# used before in the same interpreter.  Alphabet: time-zone aware / naive DateTime objects (with default and with user supplied
+# tz_localize_kwargs / to_datetime_kwargs), a parametrised Category and an integer type x containers holding wall-clock times at
+# the edges of a DST change.  Every history runs in a FRESH interpreter and is compared with each operation run alone (also fresh).
+HIST_DTYPES = {
+    "dt_berlin": lambda pe: pe.DateTime(tz="Europe/Berlin"),
+    "dt_berlin_nat": lambda pe: pe.DateTime(tz="Europe/Berlin", tz_localize_kwargs={"ambiguous": "NaT", "nonexistent": "NaT"}),
+    "dt_berlin_shift": lambda pe: pe.DateTime(tz="Europe/Berlin", tz_localize_kwargs={"ambiguous": "NaT", "nonexistent": "shift_forward"}),
+    "dt_naive_kwargs": lambda pe: pe.DateTime(tz_localize_kwargs={"ambiguous": "NaT", "nonexistent": "NaT"}),
+    "dt_naive_fmt": lambda pe: pe.DateTime(to_datetime_kwargs={"format": "%Y-%m-%d %H:%M:%S"}),
+    "dt_utc": lambda pe: pe.DateTime(tz="UTC"),
+    "dt_tzdtype": lambda pe: pe.Engine.dtype("datetime64[ns, Europe/Berlin]"),
+    "cat_1x": lambda pe: pe.Category(categories=[1, "x"], ordered=False),
+    "cat_ab": lambda pe: pe.Category(categories=["a", "b"], ordered=True),
+    "int64": lambda pe: pe.Engine.dtype("int64"),
+}
+HIST_CONTAINERS = {
+    "plain": ["2021-06-01 12:00:00", "2021-01-01 00:00:00"],
+    "nonexistent": ["2021-03-28 02:30:00", "2021-06-01 12:00:00"],
+    "ambiguous": ["2021-10-31 02:30:00", "2021-06-01 12:00:00"],
+    "text": ["x", "a"],
+}
+HIST_OPS = [(d, c) for d in HIST_DTYPES for c in HIST_CONTAINERS]
+
+
+def _hist_run(ops):
+    """(in a fresh interpreter) run the operations in order; -> one outcome per operation"""
+    import pandas as pd
+    from pandera.engines import pandas_engine as pe
+
+    out = []
+    for d, c in ops:
+        T = HIST_DTYPES[d](pe)
+        vals = HIST_CONTAINERS[c]
+        ser = pd.Series(pd.to_datetime(vals)) if (c != "text" and d.startswith("dt_") and d != "dt_naive_fmt") else pd.Series(vals, dtype="object")
+        st, res = _coerce_pd(T, ser)
+        if st == "ok":
+            out.append(["ok", [_norm(x) for x in list(res)], str(res.dtype)])
+        elif st == "parser":
+            out.append(["parser", sorted([str(r["index"]), _norm(r["failure_case"])] for _, r in res.iterrows()) if res is not None else None])
+        else:
+            out.append(["other", type(res).__name__])
+    return out
+
+
+def _hist_fresh(ops):
+    import os
+    import subprocess
+    import sys
+
+    root = os.path.dirname(os.path.dirname(os.path.dirname(os.path.abspath(__file__))))
+    code = ("import sys,json,warnings;warnings.simplefilter('ignore');sys.path.insert(0,%r);from mc.props import c10;"
+            "print('@@'+json.dumps(c10._hist_run(json.load(sys.stdin))))") % root
+    p = subprocess.run([sys.executable, "-c", code], input=json.dumps(ops), text=True, capture_output=True,
+                       env=dict(os.environ, PYTHONHASHSEED="0"), timeout=600)
+    for line in p.stdout.splitlines():
+        if line.startswith("@@"):
+            return json.loads(line[2:])
+    raise RuntimeError("history run produced no result: " + p.stderr[-1500:])
+
+
+def _hist_alone():
+    """every operation alone in a fresh interpreter; shared between the worker processes of one run through a scratch file keyed by
+    the parent process (pid + start time), so it is never reused by another run"""
+    import os
+    import tempfile
+
+    ppid = os.getppid()
+    try:
+        start = open(f"/proc/{ppid}/stat").read().rsplit(")", 1)[1].split()[19]
+    except Exception:  # noqa
+        start = "0"
+    path = os.path.join(tempfile.gettempdir(), f"verif_c10_alone_{ppid}_{start}.json")
+    if os.path.exists(path):
+        try:
+            return {tuple(k.split("|")): v for k, v in json.load(open(path)).items()}
+        except Exception:  # noqa
+            pass
+    alone = {op: _hist_fresh([list(op)])[0] for op in HIST_OPS}
+    tmp = path + f".{os.getpid()}"
+    json.dump({"|".join(k): v for k, v in alone.items()}, open(tmp, "w"))
+    os.replace(tmp, path)
+    return alone
+
+
+def _explore_history(first, depth):
+    """all histories that start with `first`: depth 2 = (first, op) for every op [each pair in its own interpreter];
+    depth "star" = first followed by every operation, once in alphabet order and once reversed (two interpreters)"""
+    viol, n = {}, 0
+    first = tuple(first)
+    alone = _hist_alone()
+    hists = []
+    if depth == "star":
+        rest = [op for op in HIST_OPS]
+        hists = [[first] + rest, [first] + rest[::-1]]
+    else:
+        hists = [[first, op] for op in HIST_OPS]
+    for h in hists:
+        got = _hist_fresh([list(op) for op in h])
+        for k, (op, r) in enumerate(zip(h, got)):
+            n += 1
+            if r != alone[tuple(op)]:
+                before = sorted({f"{d}" for d, _c in h[:k]} - {op[0]}) if depth != "star" else [first[0]]
+                viol.setdefault(("outcome_is_function_of_dtype_and_container", f"pandas:{op[0]}:{op[1]}:after:{'+'.join(before)}"),
+                                f"history={h[:k + 1]} outcome={r} alone={alone[tuple(op)]}")
+                break
+    return viol, n, len(hists)
+
+
+def _cleanup_scratch():
+    import glob
+    import os
+    import tempfile
+
+    for f in glob.glob(os.path.join(tempfile.gettempdir(), f"verif_c10_alone_{os.getpid()}_*")):
+        try:
+            os.unlink(f)
+        except OSError:
+            pass
+
+
 def plan(tier, seed):
+    import atexit
+
+    atexit.register(_cleanup_scratch)  # (plan runs in the parent process of the workers)
     maxlen = 2 if tier == "quick" else 3
     kinds = ["series"]
     cases = [{"backend": "pandas", "dtype": d, "maxlen": maxlen, "kinds": kinds} for d in PANDAS_DTYPES]
     cases += [{"backend": "polars", "dtype": d, "maxlen": maxlen + 1} for d in POLARS_DTYPES]
+    # histories: quick = every first operation followed by the whole alphabet (forwards and backwards); thorough = also every
+    # ordered pair of operations in an interpreter of its own
+    firsts = [op for op in HIST_OPS if op[1] in ("plain", "text")]
+    cases += [{"backend": "pandas_history", "first": list(op), "depth": "star"} for op in (firsts if tier != "quick" else [o for o in firsts if o[1] == "plain"])]
+    if tier != "quick":
+        cases += [{"backend": "pandas_history", "first": list(op), "depth": 2} for op in HIST_OPS]
     return {"cases": cases, "exhaustive": True,
             "bounds": {"container_length": maxlen, "pool": POOL_NAMES, "pandas_dtypes": PANDAS_DTYPES, "polars_dtypes": POLARS_DTYPES,
                        "container_kinds": kinds},
@@ -286,6 +418,11 @@ def plan(tier, seed):
 
 
 def run_case(case):
+    if case["backend"] == "pandas_history":
+        viol, n, nh = _explore_history(case["first"], case["depth"])
+        v = [{"clause": c, "key": k, "detail": d[:900]} for (c, k), d in viol.items()]
+        return {"viol": v, "states": max(n, 1), "transitions": max(n, 1), "execs": nh + len(HIST_OPS), "nontrivial": True, "nontrivial_n": n,
+                "outcome": f"history:{case['first'][0]}:{case['first'][1]}:{case['depth']}"}
     if case["backend"] == "pandas":
         viol, n, nt = _explore_pandas(case["dtype"], case["maxlen"], case["kinds"])
     else:
